@@ -89,3 +89,64 @@ Fixpoint tight_run (v : tvariant) (reg en vo : bool) (root : str) (st : tstate) 
 (* the property predicate on a path: root ++ "/" ++ rel, rel never climbing above the root *)
 Definition below_root (root p : str) : Prop :=
   exists rel, p = root ++ 47 :: rel /\ stays_below_root (47 :: rel) = true.
+
+(* ------------------------------------------------------------------ initialisation and command-line arguments
+   (handlefiletransferrequest.c InitFileTransfer / SetFtpRoot / GetHomeDir, rfbtightserver.c
+   rfbTightProcessArg, cargs.c: the extension's processArgument hook is called for every argument
+   libvncserver itself does not know, with the rest of the command line) *)
+Record tinit := { t_initted : bool; t_enabled : bool; t_root : str }.
+(* static initialisers: fileTransferEnabled = TRUE, fileTransferInitted = FALSE, ftproot = "" *)
+Definition tinit0 : tinit := {| t_initted := false; t_enabled := true; t_root := [] |}.
+
+(* environment: getpwuid(geteuid())->pw_dir, and whether a path is an openable directory
+   (stat + S_ISDIR + opendir) *)
+Record tenv := { pw_home : option str; dir_ok : str -> bool }.
+
+Definition s_ftproot : str := [45; 102; 116; 112; 114; 111; 111; 116].
+Definition s_disable : str := [45; 100; 105; 115; 97; 98; 108; 101; 102; 105; 108; 101; 116; 114; 97; 110; 115; 102; 101; 114].
+
+Definition strip_slash (p : str) : str :=
+  match rev p with 47 :: r => rev r | _ => p end.
+
+(* SetFtpRoot: (TRUE/FALSE, state) *)
+Definition set_root (env : tenv) (p : str) (st : tinit) : bool * tinit :=
+  if (Zlength p =? 0) || (Zlength p >? C19_PATH_MAX - 1) || negb (dir_ok env p) then (false, st)
+  else (true, {| t_initted := t_initted st; t_enabled := t_enabled st; t_root := strip_slash p |}).
+
+(* InitFileTransfer: runs once; wipes ftproot, tries the home directory, switches transfer on *)
+Definition init_ft (env : tenv) (st : tinit) : tinit :=
+  if t_initted st then st else
+  let st1 := {| t_initted := false; t_enabled := t_enabled st; t_root := [] |} in
+  let st2 := match pw_home env with
+             | Some (c :: h) => snd (set_root env (c :: h) st1)
+             | _ => st1
+             end in
+  {| t_initted := true; t_enabled := true; t_root := t_root st2 |}.
+
+(* rfbTightProcessArg(argc, argv): number of arguments consumed, new state *)
+Definition process_arg (env : tenv) (st : tinit) (argv : list str) : nat * tinit :=
+  let st := init_ft env st in
+  match argv with
+  | [] => (O, st)
+  | a :: tl =>
+      if list_eqb a s_ftproot then
+        match tl with
+        | [] => (O, st)
+        | p :: _ => let '(ok, st') := set_root env p st in if ok then (2%nat, st') else (O, st)
+        end
+      else if list_eqb a s_disable then
+        (1%nat, {| t_initted := t_initted st; t_enabled := false; t_root := t_root st |})
+      else (O, st)
+  end.
+
+(* rfbProcessArguments over arguments unknown to libvncserver itself *)
+Fixpoint run_args (env : tenv) (st : tinit) (args : list str) : tinit :=
+  match args with
+  | [] => st
+  | a :: tl =>
+      let '(h, st') := process_arg env st (a :: tl) in
+      match h, tl with
+      | 2%nat, _ :: tl2 => run_args env st' tl2
+      | _, _ => run_args env st' tl
+      end
+  end.
